@@ -417,10 +417,17 @@ func (E *Engine) mapLen(dom *Term) *Term {
 	// ground instances of the cardinality axioms for this particular map value
 	name := fmt.Sprintf("maplen#%d", t.id)
 	k := tb.BVar("k", ks)
+	w2 := "mapwit2$" + sanitize(string(ks))
+	tb.DeclFunc(w2, []Sort{dom.sort}, ks)
+	k2 := tb.BVar("k2", ks)
+	wa, wb := tb.App(w, ks, dom), tb.App(w2, ks, dom)
 	conj := []*Term{
 		tb.Cmp(">=", t, tb.Int(0)),
-		tb.Eq(tb.Eq(t, tb.Int(0)), tb.Not(tb.Select(dom, tb.App(w, ks, dom)))),
+		tb.Eq(tb.Eq(t, tb.Int(0)), tb.Not(tb.Select(dom, wa))),
 		tb.Forall([]*Term{k}, tb.Implies(tb.Select(dom, k), tb.Cmp(">", t, tb.Int(0)))),
+		// at least two elements iff two distinct keys exist
+		tb.Implies(tb.Cmp(">=", t, tb.Int(2)), tb.And(tb.Select(dom, wa), tb.Select(dom, wb), tb.Not(tb.Eq(wa, wb)))),
+		tb.Forall([]*Term{k, k2}, tb.Implies(tb.And(tb.Select(dom, k), tb.Select(dom, k2), tb.Not(tb.Eq(k, k2))), tb.Cmp(">=", t, tb.Int(2)))),
 	}
 	if dom.op == "store" {
 		d0, key, val := dom.args[0], dom.args[1], dom.args[2]
